@@ -2031,6 +2031,12 @@ def run(tier):
                     'the lookup tables are rebuilt for every input; a value cached for an earlier input is served for the current one, so a proposal is made for the wrong sort')
 
     chk.guard(_memo_rule, chk, prog)
+    from .. import mutstate
+    chk.guard(mutstate.report, chk, prog, 'C16.R13',
+              'mutators keep no state from one call to the next: their '
+              'protocol methods store nothing on the object, the class or '
+              'module-level containers except option values and constants',
+              'a sort or width remembered for another node is used for this one')
     extra = None
     if tier == 'thorough':
         from .. import selftest
